@@ -3,7 +3,8 @@ EXTENDS IO, TLC, Json, Integers
 T(c, l) == [cls |-> c, lay |-> l]
 \* layouts: d<dim>[w][<modes>]
 TypesEm == {T("SphericalDroplet", "d1"), T("SphericalDroplet", "d2"), T("DiffuseDroplet", "d2w"),
-            T("PerturbedDroplet2D", "d2w2"), T("PerturbedDroplet2D", "d2w1")}
+            T("PerturbedDroplet2D", "d2w2"), T("PerturbedDroplet2D", "d2w1"),
+            T("PerturbedDroplet3D", "d3w3"), T("PerturbedDroplet3DAxisSym", "d3w3")}
 Types3D == {T("SphericalDroplet", "d3"), T("DiffuseDroplet", "d3w"), T("PerturbedDroplet3D", "d3w3"),
             T("PerturbedDroplet3DAxisSym", "d3w3"), T("PerturbedDroplet3DAxisSym", "d3w1")}
 TypesSmall == {T("SphericalDroplet", "d1"), T("DiffuseDroplet", "d1w"), T("PerturbedDroplet3DAxisSym", "d3w2")}
